@@ -16,14 +16,14 @@ def d_tlc(name, module, cfg, dom, subdir="mc", expect="ok", thorough_only=False,
     return dict(name=name, run=runit, thorough_only=thorough_only)
 
 
-def d_apa(name, module, cinit, inv, expect="ok", thorough_only=False):
+def d_apa(name, module, cinit, inv, expect="ok", thorough_only=False, init=None, next_=None):
     def runit(d, tier):
-        r = core.apalache(module, cinit, inv, timeout=400)
+        r = core.apalache(module, cinit, inv, timeout=400, init=init, next_=next_)
         if r["result"] == "timeout":
             return dict(result="inconclusive-timeout", note=r["note"])
         if expect == "violated":
             return dict(result="refuted-as-expected" if r["result"] == "violated" else "unexpectedly-holds")
-        return dict(result=r["result"], detail=r.get("detail", ""), note="Apalache, all operands at H = 2^64, %.0fs" % r["wall"])
+        return dict(result=r["result"], detail=r.get("detail", ""), note="Apalache (symbolic, all operands), %.0fs" % r["wall"])
     return dict(name=name, run=runit, thorough_only=thorough_only)
 
 
@@ -89,6 +89,14 @@ D_CONVINT = [d_apa("ConvInt (Apalache, EVERY source value, %s): to_fixed_helper'
                    "floor(v * 2^(fd-fs)) wrapped, flagged and clamped" % n.replace("_", " -> "), "AP_ConvInt.tla", "C_" + n, "AllOk",
                    thorough_only=(n not in CONV_QUICK)) for n in CONV_CFGS] + [
              d_apa("ConvInt: non-vacuity, I64F64 -> I32F32 can overflow", "AP_ConvInt.tla", "C_I64F64_I32F32", "NeverOverflows", expect="violated")]
+CMP_QUICK = ['U64F64_I64F64', 'I64F64_U64F64', 'I0F128_i8', 'u8_U0F128', 'I64F64_I32F32', 'I16F16_U8F8']
+D_CMPINT = [d_apa("CmpInt (Apalache, EVERY pair of values, left operand %s, right operand %s): comparison as coded (conversion, cast, sign "
+                  "check, lost-bits tie-break) = comparison of the exact values" % (n.split("_")[1], n.split("_")[0]), "AP_CmpInt.tla", "C_" + n,
+                  "CmpOk", thorough_only=(n not in CMP_QUICK), init="InitC", next_="NextC") for n in CONV_CFGS] + [
+            d_apa("CmpInt: non-vacuity, the sign check is needed for U64F64 vs I64F64", "AP_CmpInt.tla", "C_U64F64_I64F64", "NoSignCase",
+                  expect="violated", init="InitC", next_="NextC"),
+            d_apa("CmpInt: non-vacuity, lost bits break a tie for I64F64 vs I32F32", "AP_CmpInt.tla", "C_I64F64_I32F32", "NoLostTie",
+                  expect="violated", init="InitC", next_="NextC")]
 def d_mathalg(pid, what):
     return d_tlc("MC_MathAlg (%s): the transcribed algorithms of transcendental.rs (tla/alg/MathAlg.tla, fidelity to the code measured by "
                  "./check G06) meet the acceptance rules of C12 / %s / C17 for EVERY operand of I5F5, I5F7, I9F3 (and U4F6 for sqrt)" % (what, pid),
@@ -124,7 +132,7 @@ D_TRIG = [
      for ci, n, to in [("CInit23", "I9F23", False), ("CInit64", "f = 64", False), ("CInit32", "f = 32", True), ("CInit88", "f = 88", True)]] + [
     d_apa("CordicZ: non-vacuity, the residual is not always zero", "AP_CordicZ.tla", "CInit23", "Exact", expect="violated")]
 DESIGNS = {
-    "C01": [D_SEM] + D_MUL + D_DIV + D_SEM_DEEP, "C02": [D_SEM] + D_MUL[:2] + D_MUL[6:11] + D_SEM_DEEP, "C03": [D_SEM] + D_CMP + D_FLOAT[:1], "C04": [D_SEM] + D_CONV + D_CONVINT, "C05": D_FLOAT,
+    "C01": [D_SEM] + D_MUL + D_DIV + D_SEM_DEEP, "C02": [D_SEM] + D_MUL[:2] + D_MUL[6:11] + D_SEM_DEEP, "C03": [D_SEM] + D_CMP + D_FLOAT[:1] + D_CMPINT, "C04": [D_SEM] + D_CONV + D_CONVINT, "C05": D_FLOAT,
     "C06": [D_SEM, d_tlc("MC_Round: rounding methods as coded (masks, 0/1 integer-bit special cases) = exact roundings, every value, "
                          "68 layouts of widths 2..6 and 8", "MC_Round", "MC_Round.cfg", "int"),
             d_tlc("MC_Round (deep): widths 7, 9, 10, 12", "MC_Round", "MC_Round_deep.cfg", "int", thorough_only=True)] + D_ROUNDINT + D_SEM_DEEP,
